@@ -30,6 +30,24 @@ def cases():
     # a removable singularity of the rule's formula at a point where the function itself is smooth: sinc'(0) = 0
     _ds = lambda x: onp.where(x == 0, 0.0, (onp.cos(onp.pi * x) * onp.pi * x - onp.sin(onp.pi * x)) / (onp.pi * onp.where(x == 0, 1.0, x) ** 2))
     C.append(("np.sinc(x) with a 0.0 in x", lambda np, x: np.sinc(x), x0, lambda x, v: v * _ds(x)))
+    # regular points far out in the floating-point range, where a mathematically equivalent rearrangement of a rule
+    # overflows (exp(x - y) / (1 + exp(x - y)) is inf / inf beyond x - y ~ 709) while the function itself is finite and smooth
+    XL, YL = onp.array([0.0, 5.0, 900.0]), onp.array([-800.0, -1000.0, 100.0])
+    sig = lambda d: onp.exp(-onp.logaddexp(0.0, -d))  # overflow-free logistic function
+    C.append(("np.logaddexp(x, y) with x - y beyond the exp overflow threshold", lambda np, x: np.logaddexp(x, YL), XL, lambda x, v: v * sig(x - YL)))
+    C.append(("np.logaddexp(y, x) with y - x beyond the exp overflow threshold", lambda np, x: np.logaddexp(XL, x), YL, lambda x, v: v * sig(x - XL)))
+    C.append(("np.logaddexp(y, x) with x - y beyond the threshold (second argument dominant)", lambda np, x: np.logaddexp(YL, x), XL, lambda x, v: v * sig(x - YL)))
+    C.append(("np.logaddexp2(x, y) with x - y beyond the exp2 overflow threshold", lambda np, x: np.logaddexp2(x, YL * 2.0), XL * 2.0, lambda x, v: v * sig((x - YL * 2.0) * onp.log(2.0))))
+    C.append(("np.logaddexp2(y, x) with x - y beyond the threshold", lambda np, x: np.logaddexp2(YL * 2.0, x), XL * 2.0, lambda x, v: v * sig((x - YL * 2.0) * onp.log(2.0))))
+    C.append(("softplus np.logaddexp(0, x) at +-800 and log-sum-exp fold with a -1500 entry", lambda np, x: np.logaddexp(0.0, x) + np.logaddexp(np.logaddexp(x[0], x[1]), x[2]) * onp.array([1.0, 0.0, 0.0]),
+              onp.array([800.0, -800.0, -1500.0]), lambda x, v: v * sig(x) + onp.array([1.0, 0.0, 0.0]) * onp.sum(v * onp.exp(x - onp.logaddexp(onp.logaddexp(x[0], x[1]), x[2])))))
+    C.append(("np.tanh / np.arctan / np.hypot / np.arctan2 at 1e150-scale arguments", lambda np, x: np.tanh(x * 1e-148) + np.arctan(x) + np.hypot(x, 3e150) * 1e-150, onp.array([4e150, -1e150, 2.5e150]),
+              lambda x, v: v * (1e-148 / onp.cosh(onp.clip(x * 1e-148, -300, 300)) ** 2 + 0.0 + x / onp.hypot(x, 3e150) * 1e-150)))
+    # constant pieces holding inf / nan joined to the argument: the tangent of those pieces is an exact zero, not 0 * inf
+    NFp = onp.array([onp.inf, -onp.inf, onp.nan])
+    C.append(("np.concatenate([x, c]) with inf / nan entries in the constant c (finite part of the result)", lambda np, x: np.concatenate([x, NFp])[:3] * 2.0 + np.append(NFp, x)[3:] + np.hstack([x, NFp])[:3], x0, lambda x, v: 4.0 * v))
+    C.append(("min / max over an array padded with +-inf sentinels", lambda np, x: np.min(np.concatenate([x, onp.array([onp.inf])])) + np.max(np.concatenate([onp.array([-onp.inf]), x])) + 0.0 * x, x0,
+              lambda x, v: (v[onp.argmin(x)] + v[onp.argmax(x)]) + 0.0 * x))
     # NaN-ignoring selectors: where the OTHER operand is NaN the result is x itself (derivative 1): a regular point
     YN = onp.array([onp.nan, 1.0, onp.nan])
     C.append(("np.fmax(x, y) with NaN entries in y", lambda np, x: np.fmax(x, YN), x0, lambda x, v: v * onp.where(onp.isnan(YN) | (x > YN), 1.0, 0.0)))
@@ -222,6 +240,69 @@ def run_nested(seed=0):
             m = onp.isfinite(first)
             ok = bool(onp.all(onp.isfinite(got[m]))) and onp.allclose(got[m], s2(xs)[m], rtol=1e-8, atol=1e-10)
             out.append(_res(key, ok, "" if ok else "first derivative %r, second derivative %r, closed form %r" % (first.tolist(), got.tolist(), s2(xs).tolist())))
+        except Exception as e:
+            out.append({"key": key, "status": "raises", "detail": "%s: %s" % (type(e).__name__, str(e)[:100]), "paths": 1, "queries": 0, "validated": 0, "verdicts": {}, "prim": "pinned"})
+    # reductions over TUPLES of axes (the rule tables treat None / int / tuple in separate branches, the two modes
+    # separately): phi''(0) for phi(t) = f(x0 + t d) under all four assignments of modes to the two levels, against a
+    # central second difference of NumPy's own function
+    x3 = onp.cos(onp.arange(24.0)).reshape(2, 3, 4) + 0.3 * onp.arange(24.0).reshape(2, 3, 4) / 7.0
+    d3 = onp.sin(onp.arange(24.0) * 1.7).reshape(2, 3, 4)
+    w3 = {(0, 2): onp.array([1.0, -2.0, 0.5]), (1, 2): onp.array([1.5, -0.5]), (-1,): onp.ones((2, 3)) * 0.25, (0, 1): onp.array([1.0, 0.5, -1.0, 2.0]), (2, 0): onp.array([1.0, -2.0, 0.5]), (-1, -3): onp.array([1.0, -2.0, 0.5])}
+    pre = lambda np, x: np.sin(x) + 0.5 * x * x
+    reds = [("std", lambda np, a, ax: np.std(a, axis=ax)), ("var", lambda np, a, ax: np.var(a, axis=ax)), ("std ddof=1", lambda np, a, ax: np.std(a, axis=ax, ddof=1)), ("mean", lambda np, a, ax: np.mean(a, axis=ax)),
+            ("sum", lambda np, a, ax: np.sum(a, axis=ax)), ("prod", lambda np, a, ax: np.prod(a, axis=ax)), ("max", lambda np, a, ax: np.max(a, axis=ax)), ("linalg.norm", lambda np, a, ax: np.linalg.norm(a, axis=ax) if len(ax) <= 2 else np.sum(a))]
+    dsc = lambda f_: (lambda t0: make_jvp(f_)(t0)(1.0)[1])
+    mode_pairs = [("rev-over-rev", lambda ph: grad(grad(ph))(0.0)), ("rev-over-fwd", lambda ph: grad(dsc(ph))(0.0)), ("fwd-over-rev", lambda ph: dsc(grad(ph))(0.0)), ("fwd-over-fwd", lambda ph: dsc(dsc(ph))(0.0))]
+    for rn, red in reds:
+        for ax, wv in w3.items():
+            if rn == "linalg.norm" and len(ax) != 2:
+                continue
+            fnp = lambda xx, _r=red, _a=ax, _w=wv: float(onp.sum(_w * _r(onp, pre(onp, xx), _a)))
+            hh = 1e-4
+            ref = (fnp(x3 + hh * d3) - 2.0 * fnp(x3) + fnp(x3 - hh * d3)) / hh ** 2
+            phi = lambda t, _r=red, _a=ax, _w=wv: np.sum(_w * _r(np, pre(np, x3 + t * d3), _a))
+            for cname, op in mode_pairs:
+                key = "PINNED nested %s | phi''(0) through np.%s(., axis=%r) of a (2,3,4) array" % (cname, rn, ax)
+                try:
+                    with warnings.catch_warnings():
+                        warnings.simplefilter("ignore")
+                        got = float(op(phi))
+                    ok = onp.isfinite(got) and abs(got - ref) <= 2e-5 * max(1.0, abs(ref))
+                    out.append(_res(key, ok, "" if ok else "got %r, central second difference of NumPy's function %r" % (got, ref)))
+                except Exception as e:
+                    out.append({"key": key, "status": "raises", "detail": "%s: %s" % (type(e).__name__, str(e)[:100]), "paths": 1, "queries": 0, "validated": 0, "verdicts": {}, "prim": "pinned"})
+    # the generic Hessian-vector product of a container with a COMPLEX leaf, written with the vector space's own inner
+    # product (what one writes for arbitrary parameter containers): grad_p <v, grad f(p)> with the traced gradient as the
+    # second and as the first argument of inner_prod (the two core rules of VSpace.inner_prod), against each other and
+    # against a central difference of the scalar along a third direction
+    from autograd.core import vspace as _vspace
+
+    rs_ = onp.random.RandomState(seed + 17)
+    cz = lambda: rs_.randn(2) + 1j * rs_.randn(2)
+    for lab, pt, vv, uu in (("tuple (complex array, real array)", (cz(), rs_.randn(2)), (cz(), rs_.randn(2)), (cz(), rs_.randn(2))),
+                            ("dict {z: complex array, w: real array}", {"z": cz(), "w": rs_.randn(2)}, {"z": cz(), "w": rs_.randn(2)}, {"z": cz(), "w": rs_.randn(2)}),
+                            ("bare complex array", cz(), cz(), cz())):
+        getz = (lambda q: q[0]) if isinstance(pt, tuple) else ((lambda q: q["z"]) if isinstance(pt, dict) else (lambda q: q))
+        getw = (lambda q: q[1]) if isinstance(pt, tuple) else ((lambda q: q["w"]) if isinstance(pt, dict) else (lambda q: onp.array([0.5, -1.5])))
+        fcx = lambda q: np.sum(np.abs(getz(q)) ** 2 * getw(q)) + np.sum(np.real(getz(q) * getz(q))) * np.sum(getw(q) ** 2) + np.sum(np.imag(getz(q)) ** 3)
+        vs_ = _vspace(pt)
+        key = "PINNED second order | Hessian-vector product of a %s through vspace.inner_prod, traced gradient as second / first argument" % lab
+        try:
+            with warnings.catch_warnings():
+                warnings.simplefilter("ignore")
+                s1 = lambda q: vs_.inner_prod(vv, grad(fcx)(q))
+                s2 = lambda q: vs_.inner_prod(grad(fcx)(q), vv)
+                h1, h2 = grad(s1)(pt), grad(s2)(pt)
+                step = lambda t: vs_.add(pt, vs_.scalar_mul(uu, t))
+                fd = (float(s1(step(1e-6))) - float(s1(step(-1e-6)))) / 2e-6
+                d1 = float(vs_.inner_prod(vs_.covector(h1), uu))
+                d2 = float(vs_.inner_prod(vs_.covector(h2), uu))
+            bad = []
+            if abs(d1 - fd) > 1e-5 * max(1.0, abs(fd)):
+                bad.append("traced gradient as SECOND argument: <hv, u> = %r, central difference %r" % (d1, fd))
+            if abs(d2 - fd) > 1e-5 * max(1.0, abs(fd)):
+                bad.append("traced gradient as FIRST argument: <hv, u> = %r, central difference %r" % (d2, fd))
+            out.append(_res(key, not bad, "; ".join(bad)))
         except Exception as e:
             out.append({"key": key, "status": "raises", "detail": "%s: %s" % (type(e).__name__, str(e)[:100]), "paths": 1, "queries": 0, "validated": 0, "verdicts": {}, "prim": "pinned"})
     # base and exponent / both operands traced at the SAME level, the scalar one at a pinned value
